@@ -221,7 +221,7 @@ func (g *G) plainStmt(sc *scope, depth int) []string {
 }
 
 func (g *G) tryPlain(sc *scope, depth int) []string {
-	k := g.pick("stmtkind", 28)
+	k := g.pick("stmtkind", 29)
 	switch k {
 	case 0, 1, 2:
 		return g.defineStmt(sc, depth)
@@ -287,6 +287,10 @@ func (g *G) tryPlain(sc *scope, depth int) []string {
 	case 27:
 		if !g.cfg.NoClosures {
 			return g.methodValueStmt(sc)
+		}
+	case 28:
+		if !g.fn.pure {
+			return g.ptrPtrStmt(sc, depth)
 		}
 	case 23:
 		if !g.cfg.NoBareBlocks && depth > 0 {
@@ -1191,6 +1195,52 @@ func (g *G) methodValueStmt(sc *scope) []string {
 				}
 			}
 		}
+	}
+	return out
+}
+
+// ptrPtrStmt: a pointer to a pointer (to a struct or a scalar), loaded from and stored through.
+// One level of indirection is everywhere in the generated programs; the second level checks that
+// the translation strips exactly one pointer per dereference (seeded change C01-7).
+func (g *G) ptrPtrStmt(sc *scope, depth int) []string {
+	var elem *Ty
+	if len(g.prog.Structs) > 0 && g.chance("ppstruct", 65) {
+		elem = &Ty{K: KStruct, S: g.prog.Structs[g.pick("ppst", len(g.prog.Structs))]}
+	} else {
+		elem = g.intTy("ppint")
+	}
+	pt := PtrTo(elem)
+	g.ctr++
+	inner := fmt.Sprintf("pi%d", g.ctr)
+	outer := fmt.Sprintf("po%d", g.ctr)
+	got := fmt.Sprintf("pg%d", g.ctr)
+	for _, n := range []string{inner, outer, got} {
+		g.fn.names[n] = true
+	}
+	g.label("pointer-to-pointer")
+	var out []string
+	out = append(out, "var "+inner+" "+pt.Go()+" = "+g.ptrExpr(sc, pt, 1))
+	g.declare(sc, &Var{Name: inner, T: pt, Mutable: true, NonNil: true, Used: true})
+	if g.chance("ppnew", 30) {
+		out = append(out, outer+" := new("+pt.Go()+")", "*"+outer+" = "+inner)
+	} else {
+		out = append(out, outer+" := &"+inner)
+	}
+	g.declare(sc, &Var{Name: outer, T: PtrTo(pt), NonNil: true, Used: true})
+	if g.chance("ppstore", 60) {
+		// store a different pointer through the outer one
+		out = append(out, "*"+outer+" = "+g.ptrExpr(sc, pt, 1))
+	}
+	out = append(out, got+" := *"+outer)
+	g.declare(sc, &Var{Name: got, T: pt, NonNil: true})
+	if elem.K == KStruct {
+		for _, f := range elem.S.Fields {
+			if f.T.Scalar() && g.chance("ppfield", 60) {
+				out = append(out, "(*"+outer+")."+f.Name+" = "+g.expr(sc, f.T, 1))
+			}
+		}
+	} else {
+		out = append(out, "**"+outer+" = "+g.expr(sc, elem, 1))
 	}
 	return out
 }
